@@ -645,6 +645,28 @@ theorem wd_read_immediate {s : St} (h : Inv s) (n : Nat) (hx : s.hasTx = true)
   | woken _ _ _ hs => rw [hsh] at hs; cases hs
   | rcvTimeout _ _ _ hs => rw [hsh] at hs; cases hs
 
+/-- once the socket is shut (possibly by the firing that this very read observes) no read blocks -/
+theorem wd_read_shut_immediate {s : St} (n : Nat) (h : (fireIfDue s).shut = true) :
+    (read s n).2.now = s.now ∧ (read s n).1 ≠ .wouldBlock := by
+  have hc := wd_read_cases s n
+  have e1 : (fireIfDue s).now = s.now := by simp
+  generalize read s n = r at hc
+  generalize fireIfDue s = s1 at hc e1 h
+  cases hc with
+  | buffered => exact ⟨e1, by simp⟩
+  | socket => exact ⟨e1, by simp⟩
+  | eofReleased => exact ⟨e1, by simp⟩
+  | eofGenuine => exact ⟨e1, by simp⟩
+  | pingFailed => exact ⟨e1, by simp⟩
+  | woken _ _ _ hs => rw [h] at hs; cases hs
+  | rcvTimeout _ _ _ hs => rw [h] at hs; cases hs
+
+theorem wd_fire_due_shut {s : St} (h : Inv s) (hd : s.deadline ≤ s.now)
+    (hw : s.wd = .waiting ∨ s.wd = .fired) : (fireIfDue s).shut = true := by
+  rcases hw with hw | hw
+  · unfold fireIfDue; rw [if_pos ⟨hw, hd⟩]
+  · exact wd_fire_shut_mono (h.fired_shut hw)
+
 /-- once the stream is done a read takes no time -/
 theorem wd_done_read_now {s : St} (h : Done s) (n : Nat) : (read s n).2.now = s.now := by
   rw [wd_done_read h n]; simp
